@@ -1,6 +1,7 @@
 """C08 — a range expression denotes exactly the integers it spells out."""
 import itertools
 import random
+import re
 import sys
 from pathlib import Path
 
@@ -119,6 +120,31 @@ def mutate(rng, s: str) -> str:
     return "".join(toks)
 
 
+_DIGITS = re.compile(r"[0-9]+")
+DIGIT_BUDGET = 14
+
+
+def digit_cost(s: str) -> int:
+    """Number of digits that continue a number.  The extracted lexer model of the shared Lexer.v
+    evaluates its `start` binding eagerly under OCaml, so its running time doubles with every such
+    digit (a cost, not a semantic, issue); generators keep this count bounded."""
+    return sum(len(m.group()) - 1 for m in _DIGITS.finditer(s))
+
+
+def cap_digits(s: str, budget: int = DIGIT_BUDGET) -> str:
+    """Keep ASCII digit runs <= 5 (an accepted element then has at most 10^5 values, which both
+    sides enumerate) and the total digit_cost <= budget (later numbers are cut to one digit)."""
+    left = [budget]
+
+    def cut(m):
+        run = m.group()[:5]
+        keep = min(len(run) - 1, left[0])
+        left[0] -= keep
+        return run[: 1 + keep]
+
+    return _DIGITS.sub(cut, s)
+
+
 def with_blanks(rng, s: str) -> str:
     out = []
     for ch in s:
@@ -178,7 +204,7 @@ class C08(core.PropBase):
         # 3. random structured lists
         n = 60000 if thorough else 4000
         for _ in range(n):
-            s = rand_list(rng)
+            s = cap_digits(rand_list(rng))
             if rng.random() < 0.3:
                 s = with_blanks(rng, s)
             yield {"s": s}
@@ -187,7 +213,7 @@ class C08(core.PropBase):
             s = rand_list(rng) if rng.random() < 0.7 else rand_elem(rng, -9, 9)
             for _ in range(rng.randint(1, 3)):
                 s = mutate(rng, s)
-            yield {"s": s}
+            yield {"s": cap_digits(s)}
 
     def rule(self, tier):
         return ("corpus; every single element a | a-b | a-b:s with a,b in [-6,6], s in [-3,3] (exhaustive); "
@@ -245,7 +271,9 @@ class C08(core.PropBase):
             for i in range(len(parts)):
                 yield {"s": ",".join(parts[:i] + parts[i + 1:])}
         for i in range(len(s)):
-            yield {"s": s[:i] + s[i + 1:]}
+            t = s[:i] + s[i + 1:]
+            if t == cap_digits(t):
+                yield {"s": t}
 
 
 PROP = C08()
